@@ -6,6 +6,8 @@
 #include <asl/SHA1.h>
 #include <asl/Map.h>
 #include <algorithm>
+#include <stdlib.h>
+#include <string.h>
 using namespace asl;
 using namespace vh;
 
@@ -33,6 +35,25 @@ static std::string step(const Toks& t)
 	if (op == "b64dec" && t.size() == 2) {
 		std::string d = unhex(t[1]);
 		return lenhex(decodeBase64(S(d)));
+	}
+	if (op == "b64decn" && t.size() == 3) {
+		// the (pointer, n) entry point on a buffer of exactly the given bytes (no terminator): only the first n count
+		Exact d(unhex(t[1]));
+		int n = (int)num(t[2]);
+		if (n < 0 || n > (int)d.n) return "bad-op";
+		return lenhex(decodeBase64((const char*)d.p, n));
+	}
+	if (op == "sha1r" && t.size() == 4) {
+		// digest of a long message made of a repeated block (too long for the line protocol): compared with the digest given
+		std::string blk = unhex(t[2]);
+		long n = (long)num(t[1]);
+		if (blk.empty() || n < 0 || n > 2147483647L) return "bad-op";
+		byte* p = (byte*)malloc(n ? n : 1);
+		for (long i = 0; i < n; i += (long)blk.size()) memcpy(p + i, blk.data(), std::min((long)blk.size(), n - i));
+		SHA1::Hash h = SHA1::hash(p, (int)n);
+		free(p);
+		std::string got = hex(&h[0], 20);
+		return got == t[3] ? "ok" : "digest " + got;
 	}
 	if (op == "b64rt" && t.size() == 2) {
 		Exact d(unhex(t[1]));
